@@ -131,6 +131,12 @@ func (s *system) apply(o op) (outcome string, fail *failure, skip bool) {
 		} else {
 			s.nowNS = s.clock
 			s.feeds[o.S].Next = hk.RawRTP(96, uint16(u), uint32(u*3000), st.ssrc, []byte{1, 2, 3})
+			if u%4 == 3 {
+				// a padding-only packet (bandwidth probe): padding bit set, the three octets after the header are
+				// padding with the count in the last one. It arrived like any other packet.
+				s.feeds[o.S].Next = hk.RawRTP(96, uint16(u), uint32(u*3000), st.ssrc, []byte{0, 0, 3})
+				s.feeds[o.S].Next[0] |= 0x20
+			}
 			n, _, err := s.rds[o.S].Read(s.buf, interceptor.Attributes{})
 			if err != nil || n != len(s.feeds[o.S].Next) {
 				return "", failf("runtime", "Read returned n=%d err=%v for a %d-byte packet", n, err, len(s.feeds[o.S].Next)), false
